@@ -333,6 +333,21 @@ func c04Scenario(p c04P, b Bounds) *Scenario {
 							noise = `{"jsonrpc":"2.0","method":"srvnote"}`
 						case "callback", "callback+hook":
 							noise = fmt.Sprintf(`{"jsonrpc":"2.0","id":%s,"method":"srvcall"}`, fid) // same id text as an in-flight client request
+						case "badreply-version": // replies to a pending id that are not valid response objects: that call ends with an error
+							noise = fmt.Sprintf(`{"jsonrpc":"1.0","id":%s,"result":5}`, fid)
+						case "badreply-mixed":
+							noise = fmt.Sprintf(`{"jsonrpc":"2.0","id":%s,"method":"x","result":1}`, fid)
+						case "badreply-bareid":
+							noise = fmt.Sprintf(`{"jsonrpc":"2.0","id":%s}`, fid)
+						case "scalar":
+							noise = `7`
+						case "scalar-in-array":
+							noise = `[7,"s",null]`
+						case "ws": // JSON white space around every record changes nothing
+							noise = ""
+							for i := range wire {
+								wire[i] = " \r\n\t" + wire[i] + "\n "
+							}
 						case "badreq-noversion": // server requests that are invalid but keep the id text of an in-flight client request
 							noise = fmt.Sprintf(`{"id":%s,"method":"srvcall"}`, fid)
 						case "badreq-extra":
@@ -344,8 +359,10 @@ func c04Scenario(p c04P, b Bounds) *Scenario {
 						case "floatid":
 							noise = fmt.Sprintf(`{"jsonrpc":"2.0","id":%s.0,"result":"FLOATID"}`, fid)
 						}
-						pos := minPos + vs.ChooseFree(len(wire)+1-minPos, "noise-position")
-						wire = append(wire[:pos:pos], append([]string{noise}, wire[pos:]...)...)
+						if noise != "" {
+							pos := minPos + vs.ChooseFree(len(wire)+1-minPos, "noise-position")
+							wire = append(wire[:pos:pos], append([]string{noise}, wire[pos:]...)...)
+						}
 					}
 					for _, w := range wire {
 						h.send(w)
@@ -411,6 +428,12 @@ func c04Scenario(p c04P, b Bounds) *Scenario {
 						Hit("C04.R2")
 						want := fmt.Sprintf(`"R:%s:%s"`, m, idOf[m])
 						okDup := p.Noise == "dup" && m == firstM && e.Arg(3) == `"DUP"`
+						if strings.HasPrefix(p.Noise, "badreply-") && m == firstM && e.Arg(1) == "jerr" {
+							continue // ended by the invalid reply that carried its id: an error, never a made-up result
+						}
+						if p.Noise == "badreply-bareid" && m == firstM && e.Arg(1) == "ok" && e.Arg(2) == idOf[m] && (e.Arg(3) == "" || e.Arg(3) == "null") {
+							continue // a reply object with neither result nor error: whether that is an empty success or an invalid response is not specified
+						}
 						if e.Arg(1) != "ok" || e.Arg(2) != idOf[m] || (e.Arg(3) != want && !okDup) {
 							v = append(v, Viol{"C04.R2", fmt.Sprintf("Call %s (id %s) completed with %s %s %s: not the reply the peer sent for its id", m, idOf[m], e.Arg(1), e.Arg(2), e.Arg(3))})
 						}
@@ -529,7 +552,8 @@ func perms(n int) [][]int {
 	return out
 }
 
-var c04Noises = []string{"dup", "unknown", "badversion", "noid", "notify", "notify+hook", "callback", "callback+hook", "strid", "floatid", "badreq-noversion", "badreq-extra", "badreq-params"}
+var c04Noises = []string{"dup", "unknown", "badversion", "noid", "notify", "notify+hook", "callback", "callback+hook", "strid", "floatid", "badreq-noversion", "badreq-extra", "badreq-params",
+	"badreply-version", "badreply-mixed", "badreply-bareid", "scalar", "scalar-in-array", "ws"}
 
 // c04SendFault: one Send fails transiently (the channel and the client stay alive) while a Call and a
 // two-call Batch are being issued concurrently; a further Call follows. The peer withholds every answer
